@@ -206,22 +206,11 @@ func fieldType(ntype reflect.Type, name string) (reflect.Type, bool) {
 		case reflect.Interface:
 			return interfaceType, true
 		case reflect.Struct:
-			// First check all struct's fields.
-			for i := 0; i < ntype.NumField(); i++ {
-				f := ntype.Field(i)
-				if f.Name == name {
-					return f.Type, true
-				}
-			}
-
-			// Second check fields of embedded structs.
-			for i := 0; i < ntype.NumField(); i++ {
-				f := ntype.Field(i)
-				if f.Anonymous {
-					if t, ok := fieldType(f.Type, name); ok {
-						return t, true
-					}
-				}
+			// FieldByName follows the rule of Go for embedded structs: the field
+			// at the shallowest depth, none if it is ambiguous. The VM resolves
+			// fields the same way.
+			if f, ok := ntype.FieldByName(name); ok {
+				return f.Type, true
 			}
 		case reflect.Map:
 			return ntype.Elem(), true
